@@ -67,7 +67,7 @@ def run(tool, argv, cwd):
     old_cwd = os.getcwd()
     old_argv = sys.argv
     os.chdir(cwd)
-    config._compilers = None
+    env.reset_compilers()
     env.capture.records.clear()
     rc = None
     with capture_fds() as box:
@@ -104,7 +104,6 @@ def run(tool, argv, cwd):
         with open(lp, errors="replace") as f:
             log = f.read()
     os.chdir(old_cwd)
-    config._compilers = None
     return {"rc": rc, "out": box["out"], "err": box["err"], "log": log, "records": records}
 
 
